@@ -26,7 +26,7 @@ CONDS = [
          'same layout/container pool; 6 mode pairs x 4 direction pairs', timeout={'quick': 100, 'thorough': 900},
          parts={'quick': 4, 'thorough': 8}),
     Cond('nth_comment_spelling_ok', 'An+B spellings with comments and mixed whitespace around the sign, keyword case, through '
-         'the real compile(): IR (a, b), of_type, last, of-S as the reference says', '14 spellings x 5 names x with/without of S',
+         'the real compile(): IR (a, b), of_type, last, of-S as the reference says', '29 spellings x 5 names x with/without of S',
          timeout={'quick': 60, 'thorough': 120}),
     Cond('nth_detached_ok', 'parentless element (fake parent): position 1 from either end; a, b unbounded',
          'a, b: all integers', timeout={'quick': 60, 'thorough': 300}, expect_exhaustive=True),
